@@ -8,12 +8,65 @@ import Pcore.Model.Reflect
 namespace C18
 open Sx Pcore.Reflect
 
-/-- tag `puppet:"name=>'x', value=>LIT"` (either item optional; LIT = integer, 'string', true, false) -/
+/-! tag `puppet:"name=>'x', value=>LIT"` (either item optional, separated by `, `).
+    LIT ::= -?DIGITS | -?DIGITS.DIGITS | 'chars' | true | false | undef | [LIT,…] | {'key'=>LIT,…}   (no blanks inside) -/
+
+def digitsVal (ds : List Char) : Nat := ds.foldl (fun n c => 10 * n + (c.toNat - '0'.toNat)) 0
+
+/-- the float64 nearest to the decimal (correctly rounded, as strconv.ParseFloat), as IEEE bits -/
+def floatBits (neg : Bool) (ip fp : List Char) : Nat :=
+  let f := Float.ofScientific (digitsVal (ip ++ fp)) true fp.length
+  (if neg then -f else f).toBits.toNat
+
+mutual
+partial def litP : List Char → Option (Lit × List Char)
+  | '\'' :: r =>
+      let body := r.takeWhile (· != '\'')
+      match r.dropWhile (· != '\'') with
+      | '\'' :: rest => some (.str (String.ofList body), rest)
+      | _ => none
+  | '[' :: ']' :: r => some (.anil, r)
+  | '[' :: r => arrP r
+  | '{' :: '}' :: r => some (.hnil, r)
+  | '{' :: r => hshP r
+  | 't' :: 'r' :: 'u' :: 'e' :: r => some (.bool true, r)
+  | 'f' :: 'a' :: 'l' :: 's' :: 'e' :: r => some (.bool false, r)
+  | 'u' :: 'n' :: 'd' :: 'e' :: 'f' :: r => some (.undef, r)
+  | cs =>
+      let (neg, r) := match cs with
+        | '-' :: r => (true, r)
+        | _ => (false, cs)
+      let ip := r.takeWhile Char.isDigit
+      if ip.isEmpty then none else
+      match r.dropWhile Char.isDigit with
+      | '.' :: r2 =>
+          let fp := r2.takeWhile Char.isDigit
+          if fp.isEmpty then none else some (.flt (floatBits neg ip fp), r2.dropWhile Char.isDigit)
+      | rest => some (.int (if neg then -(digitsVal ip : Int) else digitsVal ip), rest)
+/-- after `[`: LIT (`,` LIT)* `]` -/
+partial def arrP (cs : List Char) : Option (Lit × List Char) := do
+  let (h, r) ← litP cs
+  match r with
+  | ',' :: r2 => let (t, r3) ← arrP r2; pure (.acons h t, r3)
+  | ']' :: r2 => pure (.acons h .anil, r2)
+  | _ => none
+/-- after `{`: 'key'=>LIT (`,` 'key'=>LIT)* `}` -/
+partial def hshP (cs : List Char) : Option (Lit × List Char) := do
+  let (k, r) ← litP cs
+  match k, r with
+  | .str _, '=' :: '>' :: r1 =>
+      let (v, r2) ← litP r1
+      match r2 with
+      | ',' :: r3 => let (t, r4) ← hshP r3; pure (.hcons k v t, r4)
+      | '}' :: r3 => pure (.hcons k v .hnil, r3)
+      | _ => none
+  | _, _ => none
+end
+
 def litOf (s : String) : Option Lit :=
-  if s == "true" then some (.bool true) else if s == "false" then some (.bool false)
-  else if s.startsWith "'" && s.endsWith "'" && s.length ≥ 2 then
-    some (.str (String.ofList ((s.toList.drop 1).take (s.length - 2))))
-  else s.toInt?.map .int
+  match litP s.toList with
+  | some (l, []) => some l
+  | _ => none
 
 def tagItems (t : String) : Option FTag :=
   let pre := "puppet:\""
@@ -153,7 +206,7 @@ partial def ptyStr (names : List GoTy) : Ty → String
 def r32 (b : Nat) : Nat := (Float.ofBits b.toUInt64).toFloat32.toFloat.toBits.toNat
 
 def variantStr (name : String) (orig : GoVal) : Option GoVal → String
-  | some back => s!" | {name}=ok back={goStr back} eq={boolStr (goStr back == goStr orig)}"
+  | some back => s!" | {name}=ok back={goStr back} eq={boolStr (goEq back orig)}"
   | none => s!" | {name}=reported PCORE_ILLEGAL_ARGUMENTS"
 
 def isHsh : Val → Bool | .hsh _ => true | _ => false
@@ -203,7 +256,7 @@ def exec : List Sexp → String
         let w := wrap true ty gv
         let pt := typeOf ty
         let back := match reflectTo r32 ty w with
-          | some b => s!"back={goStr b} eq={boolStr (goStr b == goStr gv)}"
+          | some b => s!"back={goStr b} eq={boolStr (goEq b gv)}"
           | none => "back=fault eq=f"
         let anc := match ancestors ty with
           | [] => ""
